@@ -1,0 +1,10 @@
+//go:build verif
+
+package h2
+
+// NewProcessorsForVerif builds a Processors pair from caller-supplied sinks. It exists only
+// under the "verif" build tag so that verification harnesses can drive stream processor
+// factories (for example the gRPC adapter) without a live relay.
+func NewProcessorsForVerif(cToS, sToC Processor) *Processors {
+	return &Processors{cToS: cToS, sToC: sToC}
+}
